@@ -10,11 +10,13 @@
 
 #include "cdns.h"
 
+#include "cbor_ref.hpp"
 #include "decomp.hpp"
 #include "filegen.hpp"
 #include "gen.hpp"
 #include "harness.hpp"
 #include "lib_adapter.hpp"
+#include "mutate.hpp"
 
 using namespace vf;
 namespace M = model;
@@ -29,7 +31,7 @@ struct Workload {
   // export
   M::Preamble pre; int comp = 0; int okind = 0; std::vector<ExpOp> ops;
   // read
-  std::string file;
+  std::string file, variant;
   // blocks
   std::vector<std::string> ips, names;
   // timestamps
@@ -167,7 +169,24 @@ static Workload gen_workload(Chooser& c, const std::string& scratch, unsigned si
       }
       break;
     }
-    case W_READ: { filegen::Opts fo; fo.max_records = 6 + size; w.file = filegen::make(c, scratch, fo).bytes; break; }
+    case W_READ: {
+      filegen::Opts fo; fo.max_records = 6 + size; w.file = filegen::make(c, scratch, fo).bytes;
+      // inputs as other C-DNS writers produce them (re-encoded, with unknown members, which makes the reader skip items), cut short or
+      // damaged: a reader that fails must not leave anything behind that the next reader on the same thread could see
+      uint64_t v = c.range(0, 5);
+      if (v >= 2) {
+        cref::Node root; std::string err;
+        if (cref::parse_all(w.file, root, err)) {
+          cref::RwOpts ro; ro.p_num = 1; ro.p_den = 4; ro.insert_unknown = true; ro.unknown_depth = 3;
+          cref::RwStats rs; std::string rew;
+          cref::encode_rw(root, rew, c, ro, rs, [](const cref::Node&) { return true; });
+          w.file = rew; w.variant = "foreign";
+        }
+        if (v == 4 && w.file.size() > 2) { w.file.resize((size_t)c.range(1, w.file.size() - 1)); w.variant += "+truncated"; }
+        if (v == 5) { mut::Stats ms; w.file = mut::mutate_file(c, w.file, size, ms); w.variant += "+damaged"; }
+      } else if (v == 1 && w.file.size() > 2) { w.file.resize((size_t)c.range(1, w.file.size() - 1)); w.variant = "truncated"; }
+      break;
+    }
     case W_BLOCK: { unsigned n = (unsigned)c.range(4, 10 + size); for (unsigned i = 0; i < n; i++) { w.ips.push_back(gen::gen_ip(c, pools)); w.names.push_back(gen::gen_name(c, pools, 60)); } break; }
     default: w.tps = c.pick<uint64_t>({1, 1000, 1000000, 1000000000}); w.s0 = c.range(0, 1ull << 32); w.n = (unsigned)c.range(10, 200); break;
   }
@@ -180,19 +199,20 @@ static void c20_threads(Case& cs) {
   bool same_kind = c.range(0, 2) == 0;     // all threads inside the same workload class at once
   std::vector<std::vector<Workload>> plan(T);
   int forced = (int)c.range(0, 1);         // export or read+render
-  unsigned per = (unsigned)c.range(1, 3);
+  unsigned per = (unsigned)c.range(1, 4);
   for (unsigned t = 0; t < T; t++)
     for (unsigned i = 0; i < per; i++) {
       Workload w = gen_workload(c, cs.scratch, cs.size);
       if (same_kind && w.kind != forced) { w = gen_workload(c, cs.scratch, cs.size); if (w.kind != forced && forced == W_READ) { filegen::Opts fo; w = Workload(); w.kind = W_READ; w.file = filegen::make(c, cs.scratch, fo).bytes; } }
       plan[t].push_back(w);
     }
-  // sequential reference
+  // sequential reference: every workload alone, in a thread of its own (nothing it leaves behind - not even in thread-local
+  // storage - can reach another workload)
   std::vector<std::vector<std::string>> ref(T), par(T);
   for (unsigned t = 0; t < T; t++) {
     std::string d = cs.scratch + "/seq" + std::to_string(t);
     ::mkdir(d.c_str(), 0755);
-    for (auto& w : plan[t]) ref[t].push_back(run_workload(w, d));
+    for (auto& w : plan[t]) { std::string r; std::thread one([&] { r = run_workload(w, d); }); one.join(); ref[t].push_back(r); }
   }
   for (int k = 0; k < W_N; k++) { g_active[k] = 0; g_max_overlap[k] = 0; }
   // concurrent run
@@ -213,7 +233,7 @@ static void c20_threads(Case& cs) {
   go = true;
   for (auto& x : th) x.join();
   std::string desc = std::to_string(T) + " threads x " + std::to_string(per) + " workloads:";
-  for (unsigned t = 0; t < T && t < 6; t++) { desc += " ["; for (auto& w : plan[t]) desc += std::string(WN[w.kind]) + (w.kind == W_EXPORT ? std::string(EXT[w.comp]) + (w.okind ? "/fd" : "/name") : "") + " "; desc += "]"; }
+  for (unsigned t = 0; t < T && t < 6; t++) { desc += " ["; for (auto& w : plan[t]) desc += std::string(WN[w.kind]) + (w.kind == W_EXPORT ? std::string(EXT[w.comp]) + (w.okind ? "/fd" : "/name") : w.kind == W_READ && !w.variant.empty() ? "(" + w.variant + ")" : "") + " "; desc += "]"; }
   cs.sample = desc;
   if (cs.replay) printf("%s\n", desc.c_str());
   for (unsigned t = 0; t < T; t++)
@@ -222,6 +242,7 @@ static void c20_threads(Case& cs) {
   int best = 0;
   for (int k = 0; k < W_N; k++) { int m = g_max_overlap[k].load(); if (m >= 2) cs.st.cls(std::string("overlap>=2:") + WN[k]); if (m > best) best = m; }
   cs.st.cls("threads:" + std::to_string(T));
+  for (unsigned t = 0; t < T; t++) { bool failed_before = false; for (size_t i = 0; i < plan[t].size(); i++) { if (plan[t][i].kind != W_READ) continue; if (failed_before && plan[t][i].variant.find("foreign") == 0) cs.st.cls("reader_of_foreign_file_after_failed_reader_on_same_thread"); if (ref[t][i].compare(0, 9, "EXCEPTION") == 0) failed_before = true; } }
   cs.st.cls("max_overlap:" + std::to_string(best));
   cs.nontrivial = best >= 2;
 }
